@@ -430,8 +430,8 @@ func (f Filter) Accept(ctx context.Context, pgmut *sync.Mutex, pg wpg.Conn, d an
 			case len(f.Ref.Table) > 0:
 				q := fmt.Sprintf(
 					`select true from %s where %s = $1`,
-					f.Ref.Table,
-					f.Ref.Column,
+					wpg.Quote(f.Ref.Table),
+					wpg.Quote(f.Ref.Column),
 				)
 				pgmut.Lock()
 				defer pgmut.Unlock()
@@ -861,7 +861,7 @@ func (ig Integration) Delete(ctx context.Context, pg wpg.Conn, n uint64) error {
 		and block_num >= $3
 	`
 	_, err := pg.Exec(ctx,
-		fmt.Sprintf(q, ig.Table.Name),
+		fmt.Sprintf(q, wpg.Quote(ig.Table.Name)),
 		wctx.SrcName(ctx),
 		ig.name,
 		n,
